@@ -246,6 +246,11 @@ def check(P, R, tier):
     check_dispatch(P, R, tu)
     # the period lengths the carry loops look up, as far as they are closed forms over a tiny domain: decoded and compared
     import lentab
+    import adddecode
+    todo = [("ymd", "d", "__ymd_add_d"), ("yd", "d", "__yd_add_d"), ("ywd", "d", "__ywd_add_d"), ("ymcw", "d", "__ymcw_add_d"),
+            ("ymd", "w", "__ymd_add_w"), ("yd", "w", "__yd_add_w"), ("ywd", "w", "__ywd_add_w"), ("ymcw", "w", "__ymcw_add_w")]
+    na = adddecode.run_parallel(R, tu, "RF2-add", todo, every=(tier == "thorough"), jobs=14)
+    R.floor("RF2-add", "decoded (start, count) points of the day and week adders", na, 500000)
     import fresh
     nf = fresh.check_unit(R, tu, "RF-fresh")
     R.floor("RF-fresh", "uses of looked-up period lengths in the date core", nf, 50)
